@@ -1,0 +1,71 @@
+//go:build verif
+
+package object
+
+// Contracts for the deductive verifier in /verif (comment-only; compiled only with -tags verif).
+//
+//@ final object.PanObj.zero writers: object.NewPanObj, object.ChildPanObjPtr, object.PanObjInstance, object.WithZero$1, object.WithZeroFromSelf$1 because: option closures run only inside NewPanObj/ChildPanObjPtr on the object under construction, before it is returned
+//
+//@ props C01 C05 C10 C18
+//
+// isVal(o): o is a Pangaea value, i.e. not nil and not one of the three interpreter-internal carrier
+// types whose Proto()/Zero() panic or delegate to a possibly-nil embedded interface.
+//@ spec fun isVal(o PanObject) bool = o != nil && !isT(o, *DeferObj) && !isT(o, *ReturnObj) && !isT(o, *YieldObj)
+// Data-structure invariant of prototype links (assumed here; established by the constructors' preconditions).
+//@ axiom protoIsVal: forall o PanObject :: {o.Proto()} isVal(o) ==> (o.Proto() == nil || isVal(o.Proto()))
+//
+// traceInt(o): the *PanInt found by walking o's prototype chain (spec of TraceProtoOfInt).
+//@ spec fun traceInt(o PanObject) *PanInt
+//@ axiom traceInt_def: forall o PanObject :: {traceInt(o)} o != nil ==> traceInt(o) == (o.Proto() == nil ? nil : (isT(o, *PanInt) ? as(o, *PanInt) : (isT(o.Zero(), *PanInt) ? as(o.Zero(), *PanInt) : traceInt(o.Proto()))))
+//
+//@ func object.TraceProtoOfInt(obj) res, ok
+//@   requires isVal(obj)
+//@   ensures  res == traceInt(obj)
+//@   ensures  ok <==> res != nil
+//@   assigns  nothing
+//@   loop 1 invariant isVal(o) && traceInt(o) == traceInt(obj)
+//
+//@ spec fun traceNil(o PanObject) *PanNil
+//@ axiom traceNil_def: forall o PanObject :: {traceNil(o)} o != nil ==> traceNil(o) == (o.Proto() == nil ? nil : (o == BuiltInNilObj ? BuiltInNil : (isT(o, *PanNil) ? as(o, *PanNil) : traceNil(o.Proto()))))
+//
+//@ func object.TraceProtoOfNil(obj) res, ok
+//@   requires isVal(obj)
+//@   ensures  res == traceNil(obj)
+//@   ensures  ok <==> res != nil
+//@   assigns  nothing
+//@   loop 1 invariant isVal(o) && traceNil(o) == traceNil(obj)
+//
+// Symbol interning: the two tables are a cache of a pure function of the string (FNV-1a); interning is
+// not an observable change of any Pangaea value. Lock discipline is C20's obligation.
+//@ func object.GetSymHash(str) res
+//@   trusted
+//@   ensures res == symhash(str)
+//@   assigns nothing
+//
+// Facts about the package-level singletons, established by package initialisation (checked by
+// executing it, see /verif: GLOBALINV obligations).
+//@ global_inv BuiltInZeroInt.Value == 0 && BuiltInZeroInt.proto == BuiltInIntObj
+//@ global_inv BuiltInOneInt.Value == 1 && BuiltInOneInt.proto == BuiltInIntObj
+//@ global_inv BuiltInNil.proto == BuiltInNilObj
+//
+//@ props C10 C18
+//@ func object.NewInheritedInt(proto, i) res
+//@   ensures res != nil && res.Value == i
+//@   ensures res.proto == proto
+//@   ensures fresh(res) || (proto == BuiltInIntObj && (i == 0 || i == 1))
+//@   assigns nothing
+//
+//@ func object.NewPanInt(i) res
+//@   ensures res != nil && res.Value == i && res.proto == BuiltInIntObj
+//@   assigns nothing
+//
+//@ func object.NewPanFloat(f) res
+//@   ensures res != nil && res.Value == f && res.proto == BuiltInFloatObj && fresh(res)
+//@   assigns nothing
+//
+//@ func object.TraceProtoOfFloat(obj) res, ok
+//@   requires isVal(obj)
+//@   ensures  ok ==> res != nil
+//@   assigns  nothing
+//@   loop 1 invariant isVal(o)
+//@ global_inv zeroFloat != nil
